@@ -72,6 +72,7 @@ def rebind(original, replacement):
 DET = {'ctx': None, 'recs': [], 'careless': True}
 DET_CAP = 400000
 DET_SAMPLE = 1200
+FRESH_SAMPLE = 5000
 
 
 class Determinism(object):
@@ -79,6 +80,7 @@ class Determinism(object):
         self.label = label
         self.first = {}
         self.sample = []
+        self.fresh = []
         self.seen = 0
         self.calls = 0
         self.wrapper = None
@@ -119,6 +121,12 @@ class Determinism(object):
                     j = (h ^ self.seen * 2654435761) % self.seen
                     if j < DET_SAMPLE:
                         self.sample[j] = (a, dict(k), ok)
+                if len(self.fresh) < FRESH_SAMPLE:
+                    self.fresh.append((a, dict(k), ok))
+                else:
+                    j = (h ^ self.seen * 40503) % self.seen
+                    if j < FRESH_SAMPLE:
+                        self.fresh[j] = (a, dict(k), ok)
             return
         ctx.counters['eval.determinism-repeat-calls'] += 1
         if prev != hash(ok):
@@ -201,6 +209,66 @@ def hostile_context(n):
     if not AMB['on'] or n % AMB['period'] != 3:
         return None
     return AMB['ctxs'][(n // AMB['period']) % len(AMB['ctxs'])]
+
+
+def fresh_compare(ctx, rnd):
+    """the first answers of this shard against a new interpreter that has seen nothing else (vf/fresh.py)"""
+    import os
+    import pickle
+    import subprocess
+    calls = []
+    for rec in DET['recs']:
+        if not rec.label.startswith('athlib'):
+            continue
+        for a, k, ok in rec.fresh:
+            try:
+                pickle.dumps((a, k))
+            except Exception:
+                continue
+            calls.append((rec.label, a, k, ok))
+    if not calls:
+        return
+    rnd.shuffle(calls)
+
+    def ask(batch, timeout=900):
+        import tempfile
+        fd, path = tempfile.mkstemp(prefix='vf-fresh-', suffix='.pkl', dir=os.environ.get('VERIF_TMP', None))
+        os.close(fd)
+        try:
+            cmd = [sys.executable] + (['-O'] if sys.flags.optimize else []) + ['-m', 'vf.fresh', path]
+            p = subprocess.run(cmd, input=pickle.dumps([(l, a, k) for l, a, k, ok in batch]), stdout=subprocess.DEVNULL, stderr=subprocess.PIPE,
+                               timeout=timeout)
+            if p.returncode != 0:
+                return None, p.stderr.decode('utf-8', 'replace')[-300:]
+            with open(path, 'rb') as f:
+                return pickle.load(f), None
+        finally:
+            try:
+                os.unlink(path)
+            except OSError:
+                pass
+    try:
+        got, err = ask(calls)
+    except Exception as e:      # noqa - a reference that cannot be had decides nothing
+        got, err = None, repr(e)[:200]
+    if got is None:
+        ctx.inconclusive.append('fresh-interpreter reference failed: %s' % err)
+        return
+    confirmed = 0
+    for (label, a, k, ok), ref in zip(calls, got):
+        ctx.counters['eval.fresh-interpreter-comparisons'] += 1
+        if ref is None or ref == ok:
+            continue
+        note = None
+        if confirmed < 6:
+            confirmed += 1
+            try:
+                alone, err = ask([(label, a, k, ok)], 120)
+                note = 'asked alone in a new interpreter: %s' % (alone[0] if alone else err)
+            except Exception as e:       # noqa
+                note = 'lone confirmation failed: %r' % e
+        ctx.violation('history:%s:first-answer-in-this-process-differs-from-a-fresh-interpreter' % label,
+                      {'fn': label, 'args': repr((a, sorted(k.items())))[:300]}, 'fresh interpreter: ' + ref[:200], ok[:200], note)
 
 
 def monitor(owner, name, on_event, rebind_aliases=True, pure=True):
